@@ -393,7 +393,78 @@ def run_c08(tier, seed):
                        'workloads': sorted(set(names))})
 
 
+# --------------------------------------------------------------------- C14
+def c14_ops(kind):
+    o = [
+        op('set', k=KA, v=5, ttl=[], tag=0), op('set', k=KA, v=F2, ttl=[2], tag=1), op('set', k=KB, v=F3, ttl=[], tag=0, retry=1),
+        dict(op('set', k=KA, v=F2, ttl=[], tag=0), form=1),                       # cache[k] = v : retries
+        op('add', k=KB, v=F1, ttl=[], tag=0), op('add', k=KB, v=7, ttl=[], tag=0, retry=1),
+        op('incr', k=KA, d=1, df=[0]), op('incr', k=KB, d=1, df=[0], retry=1), dict(op('incr', k=KB, d=-1, df=[0]), form=1),
+        op('touch', k=KA, ttl=[5]), op('touch', k=KA, ttl=[5], retry=1),
+        op('get', k=KA, fx=0, ft=0, mk='miss'), op('get', k=KA, fx=1, ft=1, mk='miss'), op('get', k=KA, fx=0, ft=0, mk='KeyError'),
+        op('get', k=KA, fx=0, ft=0, mk='miss', retry=1), dict(op('get', k=KA, fx=0, ft=0, mk='KeyError'), form=1),
+        op('contains', k=KA), op('len'), op('iter', rev=0, sorted=0),
+        op('pop', k=KA, fx=0, ft=0), op('pop', k=KA, fx=0, ft=0, retry=1),
+        op('delete', k=KA, mk='false'), op('delete', k=KA, mk='KeyError'), op('delete', k=KA, mk='false', retry=1),
+        op('clear'), op('clear', retry=1), op('evict', tag=2), op('expire'), op('cull'),
+    ]
+    if kind == 'cache':
+        o += [op('push', v=F3, p=[], back=1, ttl=[], tag=0), op('push', v=6, p=[97], back=0, ttl=[], tag=0, retry=1),
+              op('pull', p=[], back=0, fx=0, ft=0), op('pull', p=[], back=1, fx=0, ft=0, retry=1),
+              op('peek', p=[], back=0, fx=0, ft=0), op('peekitem', last=1, fx=0, ft=0),
+              op('iter', rev=1, sorted=1)]
+    return o
+
+
+def run_c14(tier, seed):
+    out = Outcome('C14', tier, seed)
+    rng = random.Random(seed * 49979687 + 14)
+    jobs_dfs = []
+    tid = 0
+    INITS['queue'] = [op('set', k=KA, v=F1, ttl=[], tag=2), op('push', v=F2, p=[], back=1, ttl=[], tag=0),
+                      op('push', v=3, p=[], back=1, ttl=[1], tag=2)]
+    combos = []
+    for kind in ('cache', 'fanout'):
+        for o in c14_ops(kind):
+            for init in ('file', 'queue') if kind == 'cache' else ('file',):
+                for stats, policy in ((False, 'lrs'), (True, 'lru')):
+                    combos.append((kind, o, init, stats, policy))
+    rng.shuffle(combos)
+    if tier == 'quick':
+        # one configuration per operation form; lookups under settings that turn reads into writes
+        seen, pick = set(), []
+        for kind, o, init, stats, policy in combos:
+            key = (kind, o['op'], o.get('form', 0), str(sorted(o['a'].items())))
+            want_rw = o['op'] in ('get', 'contains', 'len', 'iter')
+            if key in seen or (want_rw and not stats and rng.random() < 0.8):
+                continue
+            seen.add(key)
+            pick.append((kind, o, init, stats, policy))
+        combos = pick
+    for kind, o, init, stats, policy in combos:
+        for budget in ((1,) if tier == 'quick' else (0, 1, 3)):
+            cfg = base_cfg(rng, False, init, stats=stats, policy=policy)
+            cfg['kind'] = kind
+            cfg['busy_budget'] = budget
+            # locker client 1; the operation (and a lookup afterwards) is client 2
+            prog = {1: [op('lock'), op('unlock')], 2: [o, op('get', k=KA, fx=0, ft=0, mk='miss')]}
+            jobs_dfs.append((cfg, prog, 2, 40 if tier == 'quick' else 200, seed, tid))
+            tid += 1000
+    traces, verdicts = explore(out, jobs_dfs, [])
+    report(out, 'C14', traces, verdicts, known_findings('C14'))
+    timeouts = sum(1 for t in traces for e in t['ev'] if e['ev'] == 'ret' and isinstance(e.get('ret'), dict) and e['ret']['k'] == 'Timeout')
+    busy = sum(1 for t in traces for e in t['ev'] if e['ev'] == 'begin' and e['ok'] == 0)
+    out.notes.update({'operations_under_test': len(combos), 'calls_ending_in_Timeout': timeouts,
+                      'failed_lock_attempts_observed': busy})
+    out.assumptions += ['the lock is held by an independent raw SQLite connection driven by the scheduler: before the call, '
+                        'between the value-file write and BEGIN, and released after 0/1/3 failed attempts',
+                        'DjangoCache timeout reporting is exercised in the C19 check (same FanoutCache code path)']
+    return out.finish()
+
+
 def run(prop, tier, seed):
+    if prop == 'C14':
+        return run_c14(tier, seed)
     if prop == 'C08':
         return run_c08(tier, seed)
     if prop == 'C05':
